@@ -296,7 +296,7 @@ func TestVerif_C13(t *testing.T) {
 			if drained.Load() > 0 {
 				rep.Count("sessions_with_output_drained", 1)
 			}
-			if i < 3 && sidx == 0 {
+			if sent > 0 && rep.WantSample() {
 				rep.Sample(wit(nil))
 			}
 		}
